@@ -150,12 +150,18 @@ def symmetric(mol):
     return True
 
 
-def rebuild_exact(mol, recalc_h=False):
+def rebuild_exact(mol, recalc_h=False, atoms=None):
     """independent rebuild through the public constructor API that reproduces the atom order AND every atom's
     neighbour order (bonds are added in a linear order compatible with all per-atom neighbour orders; one exists for
-    every molecule built through the API). Falls back to molgen.rebuild when no such order exists."""
+    every molecule built through the API). Falls back to molgen.rebuild when no such order exists.
+    `atoms`: build only the induced fragment on these atoms (reference for substructure())."""
     from chython import MoleculeContainer
-    bonds = mol._bonds
+    if atoms is not None:
+        keep = set(atoms)
+        bonds = {n: {m: b for m, b in ms.items() if m in keep} for n, ms in mol._bonds.items() if n in keep}
+    else:
+        keep = None
+        bonds = mol._bonds
     key = lambda a, b: (a, b) if a < b else (b, a)
     succ, indeg = {}, {}
     for n, ms in bonds.items():
@@ -176,17 +182,49 @@ def rebuild_exact(mol, recalc_h=False):
             if indeg[y] == 0:
                 ready.append(y)
     if len(order) != len(indeg):
+        if keep is not None:
+            raise ValueError('no linear bond order')
         return molgen.rebuild(mol, recalc_h=recalc_h)
     r = MoleculeContainer()
     for n, a in mol.atoms():
+        if keep is not None and n not in keep:
+            continue
         r.add_atom(a.copy(hydrogens=not recalc_h, stereo=True), n, _skip_calculation=True)
     for a, b in order:
         # the first endpoint to list the other decides nothing: add_bond appends to both neighbour dicts
         r.add_bond(a, b, bonds[a][b].copy(stereo=True), _skip_calculation=True)
     r.fix_structure(recalculate_hydrogens=recalc_h)
     if any(list(r._bonds[n]) != list(bonds[n]) for n in bonds):
+        if keep is not None:
+            raise ValueError('neighbour order not reproduced')
         return molgen.rebuild(mol, recalc_h=recalc_h)
     return r
+
+
+def stereo_marks(mol):
+    return (sorted((n, a._stereo) for n, a in mol._atoms.items() if a._stereo is not None),
+            sorted((min(n, m), max(n, m), b._stereo) for n, m, b in mol.bonds() if b._stereo is not None))
+
+
+def created_differs(src, op, res):
+    """copy()/substructure() result against a fragment built independently from the source through the public
+    constructor (same atom and neighbour order, marks carried over, then the same fix_structure/fix_stereo):
+    canonical string (configuration included), stereo marks, hydrogens must agree. Returns a description or None."""
+    name = op[0]
+    try:
+        if name == 'copy':
+            ref = rebuild_exact(src)
+        else:
+            ref = rebuild_exact(src, recalc_h=bool(op[2]), atoms=op[3])
+            ref.fix_stereo()
+        want, got = str(ref), str(res)
+    except Exception:
+        return None
+    if want != got:
+        return f'canonical string {got} differs from {want} of the independently built fragment'
+    if stereo_marks(ref) != stereo_marks(res) and [list(res._bonds[n]) for n in res._bonds] == [list(ref._bonds[n]) for n in ref._bonds]:
+        return f'stereo marks {stereo_marks(res)} differ from {stereo_marks(ref)}'
+    return None
 
 
 def staleness(mol):
@@ -374,6 +412,10 @@ def apply_op(objs, op):
         m.meta[a[1]] = a[2]
     elif name == 'read':
         read_key(m, a[1])
+    elif name == 'split':       # only in the property-level search: parts are appended
+        parts = m.split()
+        objs.extend(parts)
+        created = len(objs) - 1 if parts else None
     elif name in BULK_OPS:      # bulk edits: only in the property-level search (not modelled)
         getattr(m, name)()
     else:
@@ -653,6 +695,9 @@ def fresh_seed(smi):
 
 
 ALPHABET_SEEDS = ['C1CCCCC1', 'CC(=O)O', 'C1CC1CN', 'C=CC=C', 'OCC(N)C.[Na+]']
+STEREO_SEEDS = ['C[C@H]1CC[C@@H](C)CC1', '[C@@H]1(C)CC[C@H](C)CC1', 'OC[C@H]1OC(O)[C@H](O)[C@@H](O)[C@@H]1O', 'N[C@@H](C)C(=O)O',
+                'F[C@]1(Cl)CC[C@@]1(Br)C', 'C/C=C/C', 'C/C=C\\C(/C)=C/C', 'CC=[C@]=CC', 'C[C@H](O)/C=C/[C@@H](C)N',
+                'C[C@H]1CC[C@@H](C)CC1.N[C@@H](C)C(=O)O', 'F/C=C/[C@H]1C[C@@H]1C.C[C@@H](N)O']
 
 
 def alphabet(mol):
@@ -688,6 +733,38 @@ def admissible(seq):
         elif op[0] in ('remap', 'copy', 'substructure') and intxn:
             return False
     return True
+
+
+RING_READS = ['sssr', 'rings_count', 'atoms_rings_sizes', 'connected_components']
+
+
+def rollback_histories(smi):
+    """reads, a block that changes the ring system / components, reads of ring and component values INSIDE the block,
+    abort, reads again, then a successful block and final reads."""
+    m = fresh_seed(smi)
+    ids = list(m._atoms)
+    bonds = [(a, b) for a, b, _ in m.bonds()]
+    nb = [(x, y) for x in ids for y in ids if x < y and y not in m._bonds[x]]
+    edits = []
+    if nb:
+        edits.append(['addBond', 0, nb[0][0], nb[0][1], 1, 0])
+        edits.append(['addBond', 0, nb[-1][0], nb[-1][1], 1, 0])
+    if bonds:
+        edits.append(['delBond', 0, bonds[0][0], bonds[0][1], 0])
+        edits.append(['delBond', 0, bonds[-1][0], bonds[-1][1], 0])
+    edits.append(['delAtom', 0, ids[-1], 0])
+    edits.append(['addAtom', 0, 6, -1, 0])
+    out = []
+    rd = lambda: [['read', 0, k] for k in RING_READS]
+    for pre in ([], rd()):
+        for e in edits:
+            for inner in ([], rd()):
+                for after in (['exitExc'], ['exitOk']):
+                    h = pre + [['enter', 0], e] + inner + [[after[0], 0]] + rd() + [['read', 0, '__cached_method___str__']]
+                    h += [['enter', 0], ['setCharge', 0, ids[0], 1]] + rd() + [['exitOk', 0]] + rd() + \
+                         [['read', 0, '__cached_method___str__']]
+                    out.append(h)
+    return out
 
 
 def interleave_reads(seq, keys):
@@ -744,6 +821,12 @@ def seed_pool(ctx):
     for s, m in molgen.handmade():
         if h_consistent(m) and len(m) <= 24:
             pool.append(s)
+    for s in STEREO_SEEDS:       # ring-closing stereocentres, allenes, cis/trans bonds
+        try:
+            if h_consistent(fresh_seed(s)):
+                pool += [s, s]
+        except Exception:
+            pass
     k = 40 if ctx.quick else 400
     for label, m in molgen.corpus(ctx.rng, k):
         try:
@@ -769,6 +852,13 @@ def correspond(ctx):
     # 0. regression corpus: traces of fixed / known findings, model vs real
     cases = [(f'finding[{i}]', t['seed'], t['ops']) for i, t in enumerate(FINDING_TRACES)]
     run_batch(ctx, cases, 'finding-traces')
+    # 0b. transaction rollback histories with ring / component reads inside the failing block
+    cases = []
+    for smi in ALPHABET_SEEDS[:3] + STEREO_SEEDS[:2] + (ALPHABET_SEEDS[3:] + STEREO_SEEDS[2:6] if not ctx.quick else []):
+        for h in rollback_histories(smi):
+            cases.append(('rollback', smi, h))
+    run_batch(ctx, cases, 'txn-rollback')
+    ctx.dist('rollback-histories', len(cases))
     # 1. exhaustive short sequences over the alphabet with reads interleaved
     depth = 2 if ctx.quick else 3
     cases = []
@@ -806,6 +896,23 @@ def correspond(ctx):
 # ------------------------------------------------------------------------------------------------
 # property oracle (never consults the model), search, probe
 # ------------------------------------------------------------------------------------------------
+
+def split_differs(smi, before, objs, last):
+    """split() of an unedited dot-separated seed against its separately parsed components (independent: the parser)."""
+    from chython import smiles
+    if any(op[0] not in ('read', 'copy') for op in before) or last is None or ' ' in smi:
+        return None
+    comps = smi.split('.')
+    parts = objs[last - len(comps) + 1:last + 1]
+    if len(parts) != len(comps):
+        return f'{len(parts)} parts for {len(comps)} components'
+    try:
+        want = sorted(str(smiles(c)) for c in comps)
+        got = sorted(str(p) for p in parts)
+    except Exception:
+        return None
+    return None if want == got else f'parts {got} differ from separately parsed components {want}'
+
 
 def oracle(smi, ops):
     """execute ops on the real code; return (signature, what) of the first property failure or None.
@@ -848,6 +955,14 @@ def oracle(smi, ops):
         flags.update(op, created, exc)
         if created is not None:
             origin[created] = (o, name)
+            if name in ('copy', 'substructure') and exc is None and quiescent(objs[o]):
+                d = created_differs(objs[o], op, objs[created])
+                if d:
+                    return (f'C13/{name}-differs-from-source', f'op {i} {op}: {d}')
+        if name == 'split' and exc is None:
+            d = split_differs(smi, ops[:i], objs, created)
+            if d:
+                return ('C13/split-differs-from-components', f'op {i} {op}: {d}')
         if exc is not None and (name == 'read' or name in BULK_OPS):
             return None  # a derived value / conversion that cannot be computed for this molecule: not a cache question
         if oc == 'crash:KeyError' and name in ('setCharge', 'setRadical', 'setXY'):
@@ -947,6 +1062,25 @@ def search(ctx):
                 if admissible(seq):
                     try_case(smi, interleave_reads(list(seq), CORE_READS))
     pool = [s for s, m in molgen.handmade() if h_consistent(m)]
+    for smi in STEREO_SEEDS:     # created objects against independently built fragments (configuration included)
+        try:
+            m0 = fresh_seed(smi)
+        except Exception:
+            continue
+        ids = list(m0._atoms)
+        cases = [[['copy', 0, 0, 0]], [['copy', 0, 1, 1]], [['split', 0]], [['substructure', 0, 1, ids]], [['substructure', 0, 0, ids]]]
+        for comp in m0.connected_components:
+            cases += [[['substructure', 0, 0, sorted(comp)]], [['substructure', 0, 1, sorted(comp)]]]
+        for _ in range(12):
+            cases.append([['substructure', 0, ctx.rng.randint(0, 1), sorted(ctx.rng.sample(ids, ctx.rng.randint(2, len(ids))))]])
+        for ops in cases:
+            try_case(smi, ops)
+            try_case(smi, [['read', 0, '__cached_method___str__']] + ops + [['read', len(ops), '__cached_method___str__']])
+    for smi in ALPHABET_SEEDS + STEREO_SEEDS[:4]:
+        for h in rollback_histories(smi):
+            if time.time() - t0 > budget * 0.8:
+                break
+            try_case(smi, h)
     bulk_seeds = ['c1ccccc1O', 'c1ccncc1C', 'C1=CC=CC=C1N', 'CC(=O)[O-].[NH4+]', 'c1ccc2ccccc2c1', '[13CH3]C(=O)O[Na]',
                   'C[N+](=O)[O-]', 'OC1CC1[Mg]Cl', '[H]C([H])([H])O', 'C[n+]1ccccc1.[Cl-]']
     for smi in bulk_seeds:       # bulk edits (most keep ring / component caches): read-bulk-read, also on copies
@@ -956,7 +1090,7 @@ def search(ctx):
                 try_case(smi, pre + [['read', o, k] for k in CORE_READS + ['aromatic_rings', 'int_adjacency', 'not_special_connectivity',
                                                                            'atoms_rings_sizes', 'rings_count', 'brutto']] + [[bulk, o]])
     while time.time() - t0 < budget:
-        smi = ctx.rng.choice(pool + bulk_seeds)
+        smi = ctx.rng.choice(pool + bulk_seeds + STEREO_SEEDS)
         ops = gen_sequence(ctx.rng, fresh_seed(smi), ctx.rng.randint(3, 25), allow_skip=False)
         for _ in range(ctx.rng.randint(0, 2)):   # splice bulk edits into the history
             ops.insert(ctx.rng.randint(0, len(ops)), [ctx.rng.choice(BULK_OPS), 0])
